@@ -180,6 +180,7 @@ func edits() []Op {
 		tog("edge:top->leaf", func(v *Vars) { v.Edge = !v.Edge }),
 		tog("target:pkg:other", func(v *Vars) { v.Other = !v.Other }),
 		tog("target:pkg:co:lon", func(v *Vars) { v.Colon = !v.Colon }),
+		tog("target:pkg:other_all", func(v *Vars) { v.OtherAll = !v.OtherAll }),
 		tog("fail:gen", func(v *Vars) { v.Fail[0] = !v.Fail[0] }),
 		tog("fail:mid", func(v *Vars) { v.Fail[1] = !v.Fail[1] }),
 		tog("fail:leaf", func(v *Vars) { v.Fail[2] = !v.Fail[2] }),
@@ -353,7 +354,7 @@ func alphabet(prop string, thorough bool) []Op {
 		if thorough {
 			return pick(all...)
 		}
-		return pick("edit:src/a.txt", "addremove:dir/w.txt", "target:pkg:other", "target:pkg:co:lon", "edge:top->leaf", "stray-files", "delete:gen/g.txt",
+		return pick("edit:src/a.txt", "addremove:dir/w.txt", "target:pkg:other", "target:pkg:co:lon", "target:pkg:other_all", "edge:top->leaf", "stray-files", "delete:gen/g.txt",
 			"build:top", "build:leaf", "build:colon", "gc:full", "gc:index", "build:top+gc(one load)", "build:leaf+gc(one load)")
 	case "C18":
 		if thorough {
@@ -716,7 +717,7 @@ func main() {
 	}
 	ops := alphabet(*fProp, r.Thorough())
 	depth := 5
-	if len(ops) <= 14 && *fProp != "C18" {
+	if len(ops) <= 15 && *fProp != "C18" {
 		depth = 6
 	}
 	if r.Thorough() {
